@@ -761,6 +761,9 @@ func parseField(v reflect.Value, bytes []byte, initOffset int, params fieldParam
 		return
 	}
 
+	// elemOffset is where the element that is decoded into v starts: after
+	// the header of an EXPLICIT tag, if there is one.
+	elemOffset := initOffset
 	t, offset, err := parseTagAndLength(bytes, offset)
 	if err != nil {
 		return
@@ -780,6 +783,7 @@ func parseField(v reflect.Value, bytes []byte, initOffset int, params fieldParam
 			if fieldType == rawValueType {
 				// The inner element should not be parsed for RawValues.
 			} else if t.length > 0 {
+				elemOffset = offset
 				t, offset, err = parseTagAndLength(bytes, offset)
 				if err != nil {
 					return
@@ -957,7 +961,7 @@ func parseField(v reflect.Value, bytes []byte, initOffset int, params fieldParam
 
 		if structType.NumField() > 0 &&
 			structType.Field(0).Type == rawContentsType {
-			bytes := bytes[initOffset:offset]
+			bytes := bytes[elemOffset:offset]
 			val.Field(0).Set(reflect.ValueOf(RawContent(bytes)))
 		}
 
